@@ -13,6 +13,11 @@ def brainK : BrainConsts :=
     guessFraction := constRat Gen.Consts.guessFraction,
     cut := constRat Gen.Consts.brainCut }
 
+/-- the constants the PROPERTIES name (C09: "the Poisson estimate for 99.99% of the signal", "at most 300"; C15: `mass/1800`,
+    `1..=255`): the specification side of the check uses these literals, never what the translator read from the source -/
+def specK : BrainConsts :=
+  { brainK with lambdaFactor := 1800, maxIter := 255, guessCap := 300, guessFraction := 9999 / 10000 }
+
 def wrap32 (n : Nat) : Int :=
   let m := n % 4294967296
   if m < 2147483648 then (m : Int) else (m : Int) - 4294967296
@@ -52,7 +57,7 @@ def runBrainCase (line : String) : String :=
         let margin := match (populate K bc order).bind (fun cs => rawVariants K cs bc order.toNat z c) with
           | .ok raw => minMargin (raw.map (fun q => relMargin q.int K.cut))
           | _ => "inf"
-        let g := numPeaks K bc .guess
+        let g := numPeaks specK bc .guess
         let nonneg := bc.all (fun x => 0 ≤ x.2) && ps.all (fun e => e.1.2 == 0)
         if !nonneg then model ++ "\tunspecified\t-\t" ++ margin else
         let nc : List (Elem × Nat) := bc.map (fun x => (x.1, x.2.toNat))
